@@ -3,7 +3,7 @@ CONSTANTS
   NB = 1
   Par <- MC_Par3
   GitOnly = {3}
-  MaxSteps = 4
+  MaxSteps = 5
   MaxTerms = 5
   Emit = "all"
   Bug = "none"
